@@ -419,6 +419,13 @@ class C16(PropBase):
             c = self.g_given_zone(rng)
             if c is not None:
                 out.append(c)
+        # "priced by absolute instant ... sub-second digits down to nanoseconds are preserved": price entries one nanosecond
+        # before / at / after a transaction's instant under the txn-time lookup (C07's class 'at-instant', borrowed)
+        import c07
+        for _ in range(40 if q else 800):
+            c = c07.PROP.gen_case(rng, "at-instant")
+            if c["lookup"] == "txn-time":
+                out.append(dict(c, delegate="c07", kind="txn-time:instants"))
         return out
 
     def g_given_zone(self, rng):
